@@ -120,7 +120,7 @@ Section Follows.
         destruct (activated_ext s2 a (suppr ap)) as (q2 & X2 & Q2).
         destruct (fire_ext s5 (snd (activated s2 a (suppr ap)))) as (q3 & X3 & Q3).
         rewrite walk_flat in W.
-        apply (run_trace _ (fun s1 => visited s1 = (a,e) :: visited s)
+        apply (run_trace _ _ (fun s1 => visited s1 = (a,e) :: visited s)
                  (fun t te last c => walks m bbs ((a,e) :: visited s) (Some a) t te (arrows c))) in W.
         * destruct W as (ew & Xw & Tw).
           exists ((((A ++ q1) ++ q2) ++ ew) ++ q3). split.
@@ -163,12 +163,12 @@ Section Follows.
 End Follows.
 
 (* ================================================================ more fuel never changes a result *)
-Lemma run_mono call1 call2 :
+Lemma run_mono call1 call2 np :
   (forall s t te last, call1 s t te last <> OutOfFuel -> call2 s t te last = call1 s t te last) ->
-  forall il s, run call1 il s <> OutOfFuel -> run call2 il s = run call1 il s.
+  forall il s, run call1 np il s <> OutOfFuel -> run call2 np il s = run call1 np il s.
 Proof.
   intros Hc. induction il as [|i r IH]; intros s H; [reflexivity|].
-  destruct i as [e|t te last]; cbn [run] in *; [apply IH, H|].
+  destruct i as [e|t te last|]; cbn [run] in *; [apply IH, H| |reflexivity].
   assert (H1 : call1 s t te last <> OutOfFuel) by (intros E; rewrite E in H; apply H; reflexivity).
   rewrite (Hc _ _ _ _ H1). destruct (call1 s t te last) as [s1| | |]; cbn [bind] in *; try reflexivity. apply IH, H.
 Qed.
@@ -224,7 +224,7 @@ Example walks_nonvacuous :
   walks_entries cyclic_module [(0%N,0%N)] [] [(0%N,0%N)]
     [Arrow World 0%N 0%N; Arrow (P 0%N) 1%N 0%N; Arrow (P 1%N) 0%N 0%N; Arrow (P 0%N) 0%N 0%N].
 Proof.
-  assert (H := seq_follows_call_tree {| v_lookup_panics := false; v_inprog_unguarded := false |} cyclic_module (fuel_for cyclic_module) [] [(0%N,0%N)]).
+  assert (H := seq_follows_call_tree {| v_lookup_panics := false; v_inprog_unguarded := false; v_nil_panics := false |} cyclic_module (fuel_for cyclic_module) [] [(0%N,0%N)]).
   vm_compute gen in H. specialize (H _ _ eq_refl). exact H.
 Qed.
 
@@ -236,7 +236,7 @@ Definition nested_bb_module : module :=
    (2%N, {| app_pats := []; app_eps := [(0%N, {| ep_hidden := false; ep_body := [Call 0%N 0%N; Ret RetShown] |})] |})].
 Example blackbox_depth_nonvacuous :
   exists d ev,
-    gen {| v_lookup_panics := false; v_inprog_unguarded := false |} nested_bb_module (fuel_for nested_bb_module)
+    gen {| v_lookup_panics := false; v_inprog_unguarded := false; v_nil_panics := false |} nested_bb_module (fuel_for nested_bb_module)
         [{| bb_key := (2%N,0%N); bb_cut := true; bb_clen := CN |}; {| bb_key := (1%N,0%N); bb_cut := false; bb_clen := CN |}] [(0%N,0%N)] = Ok (d, ev)
     /\ n_act 2%N ev = 2 /\ n_deact 2%N ev = 2 /\ In (NoteOver 2%N) ev /\ length (arrows ev) = 4.
 Proof. eexists. eexists. vm_compute. repeat split; try reflexivity. auto 12. Qed.
